@@ -82,7 +82,7 @@ func genC17(r *Rng, tier string) *c17W {
 			case k < 66:
 				s = append(s, cOp{Op: "bulk", G: g, ID: Pick(r, []string{"a", "b", "c"})})
 			case k < 74:
-				s = append(s, cOp{Op: "query", G: g, Query: Pick(r, []string{"V", "V.out", "E", "V.count", "V.hasLabel"})})
+				s = append(s, cOp{Op: "query", G: g, Query: Pick(r, []string{"V", "V.out", "E", "V.count", "V.hasLabel", "V.outENull", "V.inENull", "V.bothE", "V.out.in"})})
 			case k < 80:
 				// a caching client: reads the graph's timestamp, then a listing, and keeps both
 				s = append(s, cOp{Op: "cachedQuery", G: g, Query: Pick(r, []string{"V", "E"})})
@@ -345,6 +345,14 @@ func execC17once(w *c17W, x *Exec) *Outcome {
 							q = gen.StmtsOf(gen.E())
 						case "V.hasLabel":
 							q = gen.StmtsOf(gen.V(), gen.HasLabel("A"))
+						case "V.outENull": // rows of edges that are not loaded until they are converted
+							q = gen.StmtsOf(gen.V(), gen.OutENull())
+						case "V.inENull":
+							q = gen.StmtsOf(gen.V(), gen.InENull())
+						case "V.bothE":
+							q = gen.StmtsOf(gen.V(), gen.BothE())
+						case "V.out.in":
+							q = gen.StmtsOf(gen.V(), gen.Out(), gen.In())
 						default:
 							q = gen.StmtsOf(gen.V(), gen.Count())
 						}
